@@ -56,6 +56,7 @@ type sysState struct {
 	asked    map[string]bool // client questions issued so far ("name/type")
 	mu       sync.RWMutex
 	lastTags string
+	nsHosts  map[string]bool // name-server host names the attacker's referrals mentioned
 }
 
 var sys *sysState
@@ -117,6 +118,8 @@ func sysNew(mode string, qmin int, sec bool) {
 	trap := w.NewServer("trap")
 	w.AddrMap["127.0.0.1:53"] = trap.Addr
 	w.AddrMap["127.0.0.53:53"] = trap.Addr
+	// the forged address only ever appears in records owned by victim names: nobody may dial it
+	w.AddrMap[net.JoinHostPort(forgedIP.String(), "53")] = trap.Addr
 	var local net.IP
 	for a := range ownIfaces {
 		if a.Is4() && !oLoopback(a) {
@@ -137,7 +140,7 @@ func sysNew(mode string, qmin int, sec bool) {
 	e := w.AddZone(evilZone, l3.ZoneOpts{})
 	e.Add("a.evil.test. 300 IN A 198.18.1.1", "d.evil.test. 300 IN DNAME victim.test.", "c.evil.test. 300 IN CNAME a.evil.test.")
 	s := &sysState{w: w, victim: v, evil: e, vsrv: v.Servers[0], esrv: e.Servers[0], trap: trap, trapIP: trap.IP, localIP: local, mode: mode,
-		scripts: map[string]func(dns.Question, *dns.Msg) *dns.Msg{}, tcpScripts: map[string]func(dns.Question, *dns.Msg, bool) *dns.Msg{}, spoof: map[string]func(*dns.Msg) []*dns.Msg{}, asked: map[string]bool{}}
+		scripts: map[string]func(dns.Question, *dns.Msg) *dns.Msg{}, tcpScripts: map[string]func(dns.Question, *dns.Msg, bool) *dns.Msg{}, spoof: map[string]func(*dns.Msg) []*dns.Msg{}, asked: map[string]bool{}, nsHosts: map[string]bool{}}
 	s.esrv.SetBehaviour(l3.Behaviour{Tamper: func(q dns.Question, honest *dns.Msg, tcp bool) *dns.Msg {
 		name := lcn(q.Name)
 		s.mu.RLock()
@@ -317,6 +320,22 @@ func (s *sysState) audit() string {
 			return fail("l3/audit/victim-name-asked-at-attacker", "%s", n)
 		}
 	}
+	// 1b. no address from a record owned by a victim name became a name-server address
+	for h := range s.nsHosts {
+		v4, _ := resolver.VerifC07GlueCached(s.p.Resolver, h)
+		for _, a := range v4 {
+			if ad, ok := netip.AddrFromSlice(forgedIP); ok && ad.Unmap() == a {
+				return fail("l3/audit/address-of-foreign-owner-taken-as-ns-address", "host=%s addr=%s", h, a)
+			}
+		}
+	}
+	for zone, addrs := range authority.VerifC07Entries(resolver.VerifDelegations(s.p.Resolver)) {
+		for _, a := range addrs {
+			if a == net.JoinHostPort(forgedIP.String(), "53") {
+				return fail("l3/audit/address-of-foreign-owner-in-delegation", "zone=%s addr=%s", zone, a)
+			}
+		}
+	}
 	// 2. the trap (loopback / local-interface glue) was never contacted
 	if n := s.trap.UDPQueries.Load() + s.trap.TCPQueries.Load() + s.trap.TCPConns.Load(); n > 0 {
 		return fail("l3/audit/address-from-rejected-glue-was-dialled", "n=%d", n)
@@ -480,6 +499,70 @@ func (s *sysState) attack(shape string, k int) (string, string) {
 		}
 	}
 	switch shape {
+	// ---- NS-address sub-lookups: a referral with glue for one name server and none for the other, so
+	// the resolver resolves the glue-less one through the (provisional) delegation; the attacker answers
+	// that address question with a record owned by a victim name riding along. It must neither be relayed
+	// nor taken as an address of the name server.
+	case "nsaddr-extra", "nsaddr-extra-first", "nsaddr-only-foreign", "nsaddr-cname-forged", "nsaddr-extra-tcp":
+		ns1, ns2 := "ns1."+sub, "ns2."+sub
+		s.nsHosts[ns1], s.nsHosts[ns2] = true, true
+		referral(func(m *dns.Msg) {
+			m.Ns = []dns.RR{rrNS(sub, ns1, dns.ClassINET), rrNS(sub, ns2, dns.ClassINET)}
+			withOpt(m, rrA(ns1, evilIP))
+		})
+		final := func(q dns.Question, honest *dns.Msg) *dns.Msg {
+			m := base(q, honest)
+			m.Answer = []dns.RR{rrA(q.Name, net.IPv4(198, 18, 1, 77))}
+			return m
+		}
+		// once the delegation is followed the same name is asked again at the child's servers
+		n := 0
+		s.scripts[lcn(deep)] = func(prev func(dns.Question, *dns.Msg) *dns.Msg) func(dns.Question, *dns.Msg) *dns.Msg {
+			return func(q dns.Question, honest *dns.Msg) *dns.Msg {
+				n++
+				if n == 1 {
+					return prev(q, honest)
+				}
+				return final(q, honest)
+			}
+		}(s.scripts[lcn(deep)])
+		addr := func(m *dns.Msg) {
+			forged := rrA("www.victim.test.", forgedIP)
+			switch shape {
+			case "nsaddr-extra", "nsaddr-extra-tcp":
+				m.Answer = []dns.RR{rrA(ns2, evilIP), forged}
+			case "nsaddr-extra-first":
+				m.Answer = []dns.RR{forged, rrA(ns2, evilIP)}
+			case "nsaddr-only-foreign":
+				m.Answer = []dns.RR{forged}
+			case "nsaddr-cname-forged":
+				m.Answer = []dns.RR{rrCNAME(ns2, "www.victim.test."), forged}
+			}
+		}
+		if shape == "nsaddr-extra-tcp" {
+			keep := trigger
+			overTCPAt := func(name string) {
+				s.tcpScripts[lcn(name)] = func(q dns.Question, honest *dns.Msg, tcp bool) *dns.Msg {
+					m := base(q, honest)
+					if !tcp {
+						m.Truncated = true
+						return m
+					}
+					addr(m)
+					return m
+				}
+			}
+			overTCPAt(ns2)
+			trigger = keep
+		} else {
+			s.scripts[lcn(ns2)] = func(q dns.Question, honest *dns.Msg) *dns.Msg {
+				m := base(q, honest)
+				if q.Qtype == dns.TypeA {
+					addr(m)
+				}
+				return m
+			}
+		}
 	// ---- replies on the stream leg that do not match the outstanding query (header flags must not matter)
 	case "tcp-honest":
 		overTCP(qn, func(m *dns.Msg) { m.Answer = []dns.RR{own} })
@@ -796,6 +879,7 @@ var allShapes = []string{
 	"nx-soa-victim", "nodata-extra",
 	"ref-self", "ref-up", "ref-root", "ref-side", "ref-mixed", "ref-class", "ref-offpath",
 	"glue-oob", "glue-strsuffix", "glue-notns", "glue-loop", "glue-local",
+	"nsaddr-extra", "nsaddr-extra-first", "nsaddr-only-foreign", "nsaddr-cname-forged", "nsaddr-extra-tcp",
 	"tcp-honest", "tcp-wrongq-glue", "tcp-wrongq-glue-tc", "tcp-wrongq-glue-tc-sf", "tcp-wrongq-answer", "tcp-wrongq-answer-tc",
 	"tcp-wrongtype-tc", "tcp-noq-tc", "tcp-twoq-tc", "tcp-wrongid", "tcp-wrongid-tc",
 	"sig-cname-forged", "sig-ans-a", "sig-ans-ns", "sig-ans-dname", "sig-ans-foreign-sig",
